@@ -242,3 +242,21 @@ def run(prog: Program, res: Result) -> None:
                     what=f"`{norm(c, 70)}` uses the async variant",
                 )
     res.floor("C03.R3", "awaited async calls", n_async_calls, 80)
+
+    # ------------------------------------------------------------------ R4 async-only hooks are found on the type
+    res.rule("C03.R4", "an async-only protocol hook (__getitem_async__) is detected on the object's type, as Python looks special methods up: hasattr(obj, …) on the instance is also true for objects with a permissive __getattr__, which then take a path the sync renderer never takes")
+    n_hook = 0
+    for mod in prog.modules.values():
+        for c in ast.walk(mod.tree):
+            if isinstance(c, ast.Call) and isinstance(c.func, ast.Name) and c.func.id in ("hasattr", "getattr") and len(c.args) >= 2 and isinstance(c.args[1], ast.Constant) and isinstance(c.args[1].value, str) and c.args[1].value.endswith("_async__"):
+                n_hook += 1
+                fi = prog.enclosing_function(mod, c)
+                q = fi.qualname if fi else "<module>"
+                recv = c.args[0]
+                on_type = isinstance(recv, ast.Call) and isinstance(recv.func, ast.Name) and recv.func.id == "type"
+                what = f"`{norm(c)}` looks the hook up on the type"
+                if on_type:
+                    res.ok("C03.R4", f"{mod.relpath}:{c.lineno} {q}", what, "type(obj)")
+                else:
+                    res.fail("C03.R4", file=mod.relpath, line=c.lineno, qualname=q, construct=f"{norm(c)} on the instance", message=f"`{norm(c)}` asks the instance: an object whose __getattr__ answers every name (attribute-style dicts, mocks) is sent down the awaitable path, the await fails and render_async() sees the variable as undefined while render() finds it", what=what)
+    res.floor("C03.R4", "async hook detections", n_hook, 1)
